@@ -167,6 +167,7 @@ def run_case(case: dict) -> dict:
         dirs = sorted({str(Path(f).parent) for f in allf if "/" in f})
         subsets = [[f] for f in rnd.sample(allf, min(3, len(allf)))]
         subsets.append(allf)
+        subsets.append([])                 # no file named: nothing to report, exit 0
         for _ in range(2):
             subsets.append(rnd.sample(allf, rnd.randint(1, min(5, len(allf)))) + rnd.sample(dirs, min(1, len(dirs))))
         ev["lintfile"] = []
